@@ -12,7 +12,7 @@ import numpy as np
 
 from common import try_coq
 from gens import abelian_table, atoms_of, base_cells, make_supercell, random_dataset, tables
-from permcorr import fake_cutoff, impl_cpt_labels, model_cls, model_labels, random_near
+from permcorr import fake_cutoff, impl_cpt_labels, model_cls, model_labels_check, random_near
 from tensors import full_basis_tensors, perm_asym
 
 UNITS = ["Tables", "BatchGen"]
@@ -65,7 +65,7 @@ def table_cases(ctx, rng):
     for name, tp in tables(8 if not quick else 6, rng):
         N = tp.shape[1]
         for order in (2, 3, 4):
-            if order == 4 and N > (4 if quick else 6) and not (name.startswith("2x2x2") and not quick):
+            if order == 4 and N > (4 if quick else 5):
                 continue
             if order == 3 and N > 8:
                 continue
@@ -135,11 +135,10 @@ def check(ctx):
         # shard to keep each coqc run small
         step = 12
         for s in range(0, len(mcases), step):
-            ml = model_labels(mcases[s:s + step], f"{ctx.tier}_{s}")
-            for (name, tp, order, near), (lab, _), m in zip(cases_l[s:s + step], impl_l[s:s + step], ml):
+            ml = model_labels_check(mcases[s:s + step], [x[0] for x in impl_l[s:s + step]], f"{ctx.tier}_{s}")
+            for (name, tp, order, near), (lab, _), nbad in zip(cases_l[s:s + step], impl_l[s:s + step], ml):
                 ctx.traces += 1
-                if len(m) != len(lab) or (m != lab).any():
-                    nbad = int((m != lab).sum()) if len(m) == len(lab) else -1
+                if nbad != 0:
                     ctx.fail("correspondence", f"C01/corr/labels/order{order}",
                              f"c_pt partition of table {name} order {order} cutoff={'yes' if near is not None else 'no'} differs from the model in {nbad} elements",
                              replay={"table": name, "tp": tp.tolist(), "order": order, "near": None if near is None else near.astype(int).tolist()}, has_input=True)
